@@ -92,6 +92,14 @@ def _check_render(case, vs, ls, u, phase):
     fmt = ["t%d", "t%d,", "t%d ", " ,t%d, ", "%d->", "t%d", "t%d", "t%d"][(case["extra"] + (0 if same else 3 * phase)) % 8]
     _FMT[0] = fmt
     title = _TITLE if same else (lambda v: fmt % v.i)
+    if case["opt"] & 128 and not same:
+        title = lambda v: "*"                    # a rendering that is NOT injective: every vertex is shown as "*"
+    if case["opt"] & 256:
+        # a one-argument rfunc that happens to have a second, defaulted positional parameter
+        base_title = title
+
+        def title(v, brackets=False, _base=base_title):
+            return ("[%s]" % _base(v)) if brackets else _base(v)
     r = title if use_r else repr
     keys = [None, _KEY_I, _KEY_NEG, _KEY_PARITY][sortsel]
     try:
